@@ -310,6 +310,28 @@ impl<L: ChainListener> ChainTracker<L> {
         proof: TxoProof,
         supplied_prev_headers: Headers,
     ) -> Result<BlockHeader, Error> {
+        let streamed = proof.proof.is_external();
+        let res = self.do_remove_block(proof, supplied_prev_headers);
+        if streamed && res.is_err() {
+            self.abort_streamed_block();
+        }
+        res
+    }
+
+    // A streamed block was refused: drop what was decoded from it, here and in the
+    // listeners, so that the next streamed block starts from a clean slate.
+    fn abort_streamed_block(&mut self) {
+        self.decode_state = None;
+        for (listener, _) in self.listeners.values() {
+            listener.on_streamed_block_abort();
+        }
+    }
+
+    fn do_remove_block(
+        &mut self,
+        proof: TxoProof,
+        supplied_prev_headers: Headers,
+    ) -> Result<BlockHeader, Error> {
         // there are four block hashes in play here:
         // - the block hash in the BlockChunk messages
         // - our idea of the tip's block hash (`tip_block_hash`)
@@ -453,6 +475,15 @@ impl<L: ChainListener> ChainTracker<L> {
 
     /// Add a block, which becomes the new tip
     pub fn add_block(&mut self, header: BlockHeader, proof: TxoProof) -> Result<(), Error> {
+        let streamed = proof.proof.is_external();
+        let res = self.do_add_block(header, proof);
+        if streamed && res.is_err() {
+            self.abort_streamed_block();
+        }
+        res
+    }
+
+    fn do_add_block(&mut self, header: BlockHeader, proof: TxoProof) -> Result<(), Error> {
         // there are four block hashes in play here:
         // - the block hash in the BlockChunk messages
         // - the block hash of the AddBlock message's header (`message_block_hash`)
@@ -795,6 +826,10 @@ pub trait ChainListener: SendSync {
     fn on_push<F>(&self, f: F)
     where
         F: FnOnce(&mut dyn PushListener);
+
+    /// The streamed block whose push events were delivered was refused:
+    /// discard whatever was collected from them.
+    fn on_streamed_block_abort(&self) {}
 }
 
 /// Convert the Network to a max target value for each network.
